@@ -104,6 +104,16 @@ def main():
     simcheck.run_family(ck, "simulation_histories", scs, propcheck.c10, "C10", "sim")
     scs3 = [c04.race_scenario(rng) for _ in range(600 if thorough else 150)]
     simcheck.run_family(ck, "simulation_requests_in_flight_races", scs3, propcheck.c10, "C10", "race")
+    # the strategy writes `with trade:` around its placement, and sometimes its own code fails inside that block right after the placement (the
+    # framework logs the callback's exception and carries on): the trade must still complete, and free its runner, once its orders have completed
+    scs4 = [simgen.gen_scenario(rng, {"kinds": ["L"], "p_manage": 0.4, "p_place": 0.7, "nstrats": [1, 2], "p_remove": 0.0, "min_upd": 8, "max_upd": 13}) for _ in range(400 if thorough else 100)]
+    nblk = 0
+    for sc in scs4:
+        for e in sc["script"]:
+            if e["acts"] and e["acts"][-1][0] == "place" and rng.random() < 0.7:
+                e["acts"][-1][5] = dict(e["acts"][-1][5] or {}, trade_block=rng.choice(["raise", "raise", "ok"]))
+                nblk += 1
+    simcheck.run_family(ck, "exception_inside_trade_block", scs4, propcheck.c10, "C10", "tblock")
     # simulation with trade limits, multi-order and re-used trades (implementation only: the simulation model has no trade limits)
     lscs = [with_limits(rng, simgen.gen_scenario(rng, {"kinds": ["L"], "p_manage": 0.5, "p_place": 0.7, "nstrats": [1, 2], "p_remove": 0.0})) for _ in range(400 if thorough else 100)]
     louts = run_impl_parallel("simlib", [{"scenarios": [simgen.to_impl(x) for x in ch], "observe": "all"} for ch in chunked(lscs, 10)], timeout=3600)
